@@ -27,6 +27,8 @@ func main() {
 		return
 	case "c14-seq":
 		os.Exit(props.C14SeqMain(os.Args[2:]))
+	case "c14-props":
+		os.Exit(props.C14PropsMain(os.Args[2:]))
 	case "list":
 		for _, id := range props.IDs() {
 			fmt.Println(id)
